@@ -115,6 +115,50 @@ def constCutoffB (sims : List SimCfg) : Bool :=
   let c := (((sims.flatMap (·.inputDelays)).head?).map (·.2.cutoff)).getD 1
   (List.range sims.length).all fun t => (sims.getD t {}).inputDelays.all fun sd => sd.2.cutoff == c
 
+/-! an executable decision of `Uniform` (all paths between two simulators have one cutoff): the smallest and the largest
+path cutoff per pair, computed by rounds of relaxation and then *checked* to be closed — the soundness proof
+(`MosaikProofs/Closure/Complete.lean: uniformB_sound`) only uses the check -/
+
+abbrev CutTab := List (List Nat)      -- [src][dest], 0 = no path
+
+def CutTab.get (t : CutTab) (s d : Sid) : Nat := (t.getD s []).getD d 0
+def CutTab.put (t : CutTab) (s d : Sid) (v : Nat) : CutTab := t.set s ((t.getD s []).set d v)
+
+/-- one round: every connection in front of every known path -/
+def cutRound (sims : List SimCfg) (lohi : CutTab × CutTab) : CutTab × CutTab :=
+  (List.range sims.length).foldl (fun acc m =>
+    (sims.getD m {}).inputDelays.foldl (fun acc sd =>
+      (List.range sims.length).foldl (fun (acc : CutTab × CutTab) t =>
+        let (lo, hi) := acc
+        if lo.get m t = 0 then acc else
+          let cl := min sd.2.cutoff (lo.get m t)
+          let ch := min sd.2.cutoff (hi.get m t)
+          (lo.put sd.1 t (if lo.get sd.1 t = 0 then cl else min (lo.get sd.1 t) cl),
+           hi.put sd.1 t (max (hi.get sd.1 t) ch))) acc) acc) lohi
+
+def cutTables (sims : List SimCfg) : CutTab × CutTab :=
+  let n := sims.length
+  let empty : CutTab := List.replicate n (List.replicate n 0)
+  let init := (List.range n).foldl (fun (acc : CutTab × CutTab) t =>
+    (sims.getD t {}).inputDelays.foldl (fun (acc : CutTab × CutTab) sd =>
+      let (lo, hi) := acc
+      (lo.put sd.1 t (if lo.get sd.1 t = 0 then sd.2.cutoff else min (lo.get sd.1 t) sd.2.cutoff),
+       hi.put sd.1 t (max (hi.get sd.1 t) sd.2.cutoff))) acc) (empty, empty)
+  (List.range (n + 1)).foldl (fun acc _ => cutRound sims acc) init
+
+/-- the tables bound every connection and are closed under putting a connection in front of a path -/
+def cutClosedB (sims : List SimCfg) (lo hi : CutTab) : Bool :=
+  (List.range sims.length).all fun m => (sims.getD m {}).inputDelays.all fun sd =>
+    (decide (sd.1 < sims.length) && lo.get sd.1 m != 0 && decide (lo.get sd.1 m ≤ sd.2.cutoff) && decide (sd.2.cutoff ≤ hi.get sd.1 m)) &&
+    (List.range sims.length).all fun t =>
+      lo.get m t == 0 ||
+        (lo.get sd.1 t != 0 && decide (lo.get sd.1 t ≤ min sd.2.cutoff (lo.get m t)) && decide (min sd.2.cutoff (hi.get m t) ≤ hi.get sd.1 t))
+
+def uniformB (sims : List SimCfg) : Bool :=
+  let (lo, hi) := cutTables sims
+  cutClosedB sims lo hi &&
+    (List.range sims.length).all fun s => (List.range sims.length).all fun t => lo.get s t == hi.get s t
+
 /-! executable forms of the hypotheses of the ancestor-table theorem (`MosaikProofs/Closure/AncTable.lean`) -/
 
 /-- every trigger connection's delay fits the depths of its two simulators, has `cutoff ≤ pre_length`, and its target exists -/
